@@ -1426,6 +1426,12 @@ def desugar(fn: ast.AST) -> int:
         arms = []
         for c in st.cases:
             t = pattern_test(subject, c.pattern)
+            if t is None and isinstance(c.pattern, ast.MatchAs) and c.pattern.pattern is None and c.pattern.name is not None:
+                # case name:  -- matches anything and binds it
+                t = ast.Constant(value=True)
+                c = ast.match_case(pattern=c.pattern, guard=c.guard, body=[ast.Assign(targets=[ast.Name(id=c.pattern.name, ctx=ast.Store())], value=copy.deepcopy(subject))] + list(c.body))
+                if c.guard is not None:
+                    return None
             if t is None:
                 return None
             if c.guard is not None:
@@ -1467,6 +1473,16 @@ def desugar(fn: ast.AST) -> int:
             if isinstance(st, (ast.FunctionDef, ast.AsyncFunctionDef, ast.ClassDef)):
                 out.append(st)
                 continue
+            if isinstance(st, ast.Expr) and isinstance(st.value, ast.YieldFrom) and isinstance(st.value.value, ast.GeneratorExp) and len(st.value.value.generators) == 1 \
+                    and not st.value.value.generators[0].is_async:
+                # yield from (E for x in xs if c)   ->   for x in xs: if c: yield E
+                g = st.value.value.generators[0]
+                body = [ast.Expr(value=ast.Yield(value=st.value.value.elt))]
+                if g.ifs:
+                    body = [ast.If(test=g.ifs[0] if len(g.ifs) == 1 else ast.BoolOp(op=ast.And(), values=list(g.ifs)), body=body, orelse=[])]
+                st = ast.copy_location(ast.For(target=g.target, iter=g.iter, body=body, orelse=[], type_comment=None), st)
+                ast.fix_missing_locations(st)
+                count[0] += 1
             if isinstance(st, ast.AnnAssign) and isinstance(st.target, ast.Name) and st.value is not None and st.simple:
                 st = ast.copy_location(ast.Assign(targets=[st.target], value=st.value), st)        # x: T = v  is  x = v  for everything analysed here
                 count[0] += 1
